@@ -13,6 +13,7 @@ use crate::{
 
 use crate::context::Context;
 use failure::{bail, Error};
+use std::cell::RefCell;
 use std::path::PathBuf;
 
 #[derive(Clone, PartialEq, Eq, Debug, EnumString, Display)]
@@ -291,9 +292,15 @@ impl Directive {
                                 point,
                             );
                         }
+                        // the directory of the including file is searched as well; it is
+                        // handed down, not recorded as an .includepath of this file
+                        let mut search_paths = include_paths.borrow().clone();
+                        if let Some(parent) = current_path.parent() {
+                            search_paths.insert(parent.to_path_buf());
+                        }
                         let context = ParseContext {
                             current_path: PathBuf::from(include),
-                            include_paths: include_paths.clone(),
+                            include_paths: RefCell::new(search_paths.clone()),
                             common_context: common_context.clone(),
                             segments: segments.clone(),
                             macros: macros.clone(),
@@ -301,8 +308,10 @@ impl Directive {
                             include_depth: include_depth + 1,
                         };
                         parse_file_internal(&context)?;
-                        let known_paths = context.include_paths.borrow().clone();
-                        include_paths.borrow_mut().extend(known_paths);
+                        // directories the included file added with .includepath stay known
+                        for path in context.include_paths.borrow().difference(&search_paths) {
+                            include_paths.borrow_mut().insert(path.clone());
+                        }
                     } else {
                         bail!("wrong format for .include, expected: {} in {}", opts, point,);
                     }
